@@ -70,18 +70,10 @@ pub fn tok<E: Into<EntityAny>>(e: E) -> Tok {
     e.into().raw()
 }
 
-/// Direct handles have no raw accessor: read id / index / version back from Debug.
+/// Direct handles have no public raw accessor: the guarded hook `verif_raw` reads (key, version).
 pub fn dtok<D: Into<EntityDirectAny>>(d: D) -> DTok {
     let d: EntityDirectAny = d.into();
-    let s = format!("{:?}", d);
-    let num = |field: &str| -> u32 {
-        let at = s.find(field).expect("debug format") + field.len();
-        s[at..].chars().take_while(|c| c.is_ascii_digit()).collect::<String>().parse().unwrap()
-    };
-    let id = num("archetype_id: ");
-    let idx = num("dense_index: ");
-    let ver = num("version: ");
-    ((idx << 8) | id, ver)
+    d.verif_raw()
 }
 
 pub fn arch_of_id(id: u8) -> Option<usize> {
